@@ -16,6 +16,7 @@ _arcs = set()         # (file, qualname, firstlineno, src_offset, dst_offset)
 _dirty = [False]
 _tag = ['x']
 _linemap = {}
+_dsts = {}
 
 
 def start(repo, tag):
@@ -39,6 +40,9 @@ def start(repo, tag):
         if not code.co_filename.startswith(prefix):
             return mon.DISABLE
         k = (code.co_filename[len(prefix):], code.co_qualname, code.co_firstlineno, src, dst)
+        seen = _dsts.setdefault((k[0], k[1], k[2], src), set())
+        if dst not in seen:
+            seen.add(dst)
         if k not in _arcs:
             _arcs.add(k)
             _dirty[0] = True
@@ -46,7 +50,7 @@ def start(repo, tag):
                 import dis
                 starts = sorted((o, ln) for o, ln in dis.findlinestarts(code) if ln is not None)
                 _linemap[(k[0], k[1], k[2])] = starts
-        return None
+        return mon.DISABLE if len(seen) >= 2 else None      # both outcomes seen: stop paying for this branch
 
     mon.register_callback(TOOL, mon.events.LINE, on_line)
     mon.register_callback(TOOL, mon.events.BRANCH, on_branch)
